@@ -132,6 +132,10 @@ NOT_WRAPPERS = {
 # second argument shape of the same public function (other branch inside the wrapper)
 SOURCE_NAME = {"mount_data": "mount", "dup3_nocloexec": "dup3", "nanosleep_rem": "nanosleep",
                "epoll_create_nocloexec": "epoll_create", "futex_wait_notimeout": "futex_wait"}
+# argument corner shapes of wrap_probe (forced mode only: the kernel never sees the odd arguments)
+SHAPES = {0: "plain", 1: "equal-fds", 2: "fd-0", 3: "fd-i32max", 4: "empty-path", 5: "same-paths", 6: "empty-buffers",
+          7: "zero-scalars", 8: "extreme-scalars"}
+SHAPE_ERRNOS = [1, 4, 9, 11, 16, 22, 4095]
 QUICK_ERRNOS = [1, 2, 4, 9, 11, 16, 22, 38, 133, 134, 511, 512, 516, 530, 4094, 4095]
 
 
@@ -207,7 +211,7 @@ def project(kind, r):
     return lo - (1 << 32) if lo >= (1 << 31) else lo
 
 
-def judge(name, mode, x, rets, out):
+def judge(name, mode, x, rets, out, shape=0):
     """rets: [(ret, injected)] of the expected system call inside the case; out: (kind, val, extra) reported by
     the probe or None when the case never reached END. Returns (violations [(sig, what)], inconclusive text)."""
     info = TABLE[name]
@@ -217,7 +221,11 @@ def judge(name, mode, x, rets, out):
     if not rets:
         if out is not None and out[0] == 3:
             return [], "probe could not build the arguments for %s" % row
-        return [("C09/%s/call-not-issued" % name, "no system call %d between the markers" % info["nr"])], None
+        if out is None:
+            return [], "%s: the probe stopped inside the case before any system call" % row
+        return [("C09/%s/no-syscall-issued" % name,
+                 "the wrapper answered %s(%d) without entering the kernel: no system call %d between the markers "
+                 "(argument shape %s)" % (["Ok", "Err", "panic"][min(out[0], 2)], out[1], info["nr"], SHAPES[shape]))], None
     if mode == 0 and (rets[0][0] != x or not rets[0][1]):
         return [], "%s: sysmon did not force %d (log shows %r)" % (name, x, rets[0])
     for r, _inj in rets[:-1] if out is not None else rets[:FORCED_N]:
@@ -264,7 +272,7 @@ def judge(name, mode, x, rets, out):
 
 
 def parse_log(path, ids):
-    """-> (finished {c: (w, mode, x, rets, out, others)}, inflight (c, w, mode, x, rets) or None)"""
+    """-> (finished {c: (w, mode, x, rets, out, others, shape)}, inflight (c, w, mode, x, rets, shape) or None)"""
     fin = {}
     cur = None
     try:
@@ -279,11 +287,11 @@ def parse_log(path, ids):
                     k = int(p[4])
                     if k == 1:
                         w = int(p[5])
-                        cur = dict(w=w, c=int(p[6]), mode=int(p[7]), x=int(p[8]), tid=p[3], rets=[], others=0,
+                        cur = dict(w=w, c=int(p[6]), mode=int(p[7]), x=int(p[8]), shape=int(p[9]), tid=p[3], rets=[], others=0,
                                    nr=TABLE[ids[w]]["nr"])
                     elif k == 2 and cur is not None and int(p[6]) == cur["c"]:
                         fin[cur["c"]] = (cur["w"], cur["mode"], cur["x"], cur["rets"],
-                                         (int(p[7]), int(p[8]), int(p[9])), cur["others"])
+                                         (int(p[7]), int(p[8]), int(p[9])), cur["others"], cur["shape"])
                         cur = None
                 elif p[0] == "S" and cur is not None and p[3] == cur["tid"]:
                     if int(p[4]) == cur["nr"]:
@@ -292,7 +300,7 @@ def parse_log(path, ids):
                         cur["others"] += 1
             except (ValueError, IndexError):
                 continue
-    inflight = (cur["c"], cur["w"], cur["mode"], cur["x"], cur["rets"]) if cur else None
+    inflight = (cur["c"], cur["w"], cur["mode"], cur["x"], cur["rets"], cur["shape"]) if cur else None
     return fin, inflight
 
 
@@ -306,16 +314,21 @@ def run_shard(job):
     def bump(k, n=1):
         cnt[k] = cnt.get(k, 0) + n
 
-    def account(c, w, mode, x, rets, out, others):
+    def account(c, w, mode, x, rets, out, others, shape=0):
         name = ids[w]
-        v, inc = judge(name, mode, x, rets, out)
+        v, inc = judge(name, mode, x, rets, out, shape)
         if inc:
             res["incon"].append("%s case %s: %s" % (flavour, (name, "forced" if mode == 0 else "real", x), inc))
             return
         res["evals"] += 1
         r_last = rets[-1][0] if rets else None
-        pw = res["per_wrapper"].setdefault(name, [0, 0, 0, 0])
-        if mode == 0:
+        pw = res["per_wrapper"].setdefault(name, [0, 0, 0, 0, 0])
+        if mode == 0 and shape:
+            bump("corner_shape_cases")
+            pw[4] += 1
+            res["distinct"].add("%s/shape-%s/%s" % (name, SHAPES[shape], "errno" if is_err(x) else "ok"))
+            res["pairs"].add((w, x))
+        elif mode == 0:
             if is_err(x):
                 bump("forced_error_cases")
                 pw[0] += 1
@@ -344,16 +357,16 @@ def run_shard(job):
             res["reissue"][key] = max(res["reissue"].get(key, 0), len(rets))
         if others:
             bump("other_syscalls_inside_cases", others)
-        case = dict(wrapper=name, build=flavour, mode="forced" if mode == 0 else "real",
+        case = dict(wrapper=name, build=flavour, mode="forced" if mode == 0 else "real", arguments=SHAPES[shape],
                     forced_result=x if mode == 0 else None, variant=x if mode else None,
                     issued=[r for r, _ in rets[:3]] + (["... %d issues" % len(rets)] if len(rets) > 3 else []),
                     reported=None if out is None else dict(kind=["Ok", "Err", "panic", "setup"][out[0]],
                                                            value=out[1], extra=out[2]))
         for sig, what in v:
-            res["viol"].append((sig, dict(case, what=what, replay_cases=[[name, mode, x]])))
-        cls = "viol" if v else ("real" if mode else ("ferr" if is_err(x) else "fok"))
+            res["viol"].append((sig, dict(case, what=what, replay_cases=[[name, mode, x, shape]])))
+        cls = "viol" if v else ("real" if mode else ("shape" if shape else ("ferr" if is_err(x) else "fok")))
         bucket = res["samples"].setdefault(cls, [])
-        if len(bucket) < 6 and (v or c % 13 == 0 or (mode == 0 and not is_err(x) and abs(x) > 4096)):
+        if len(bucket) < 6 and (v or c % 13 == 0 or shape or (mode == 0 and not is_err(x) and abs(x) > 4096)):
             bucket.append(case)
 
     remaining = list(cases)
@@ -364,8 +377,8 @@ def run_shard(job):
         cfile = os.path.join(wdir, "cases-%s-%d-%d.txt" % (flavour, sid, attempt))
         log = os.path.join(wdir, "log-%s-%d-%d.txt" % (flavour, sid, attempt))
         with open(cfile, "w") as f:
-            for c, w, mode, x in remaining:
-                f.write("%d %d %s %d\n" % (w, c, "F" if mode == 0 else "R", x))
+            for c, w, mode, x, shape in remaining:
+                f.write("%d %d %s %d %d\n" % (w, c, "F" if mode == 0 else "R", x, shape))
         cmd = syslog.sysmon_cmd(log, [probe, "run"], timeout_s=timeout_s, idle_ms=0, scope_markers=True,
                                 sysmon=sysmon)
         try:
@@ -376,22 +389,22 @@ def run_shard(job):
         except subprocess.TimeoutExpired:
             rc, errtxt = -1, "driver timeout"
         fin, inflight = parse_log(log, ids)
-        for c, (w, mode, x, rets, out, others) in fin.items():
-            account(c, w, mode, x, rets, out, others)
+        for c, (w, mode, x, rets, out, others, shape) in fin.items():
+            account(c, w, mode, x, rets, out, others, shape)
         try:
             os.unlink(log)
             os.unlink(cfile)
         except OSError:
             pass
-        order = [c for c, _, _, _ in remaining]
+        order = [t[0] for t in remaining]
         if rc == 0 and all(c in fin for c in order):
             remaining = []
             break
         # something stopped the shard: find the case in flight and continue behind it
         if inflight is not None:
-            c, w, mode, x, rets = inflight
+            c, w, mode, x, rets, shape = inflight
             if len(rets) > FORCED_N:
-                account(c, w, mode, x, rets, None, 0)  # still re-issuing after the fuse: judged on the log
+                account(c, w, mode, x, rets, None, 0, shape)  # still re-issuing after the fuse: judged on the log
                 bump("cases_cut_by_watchdog")
                 # the wrapper loops without end for this kind of result: its other cases would only repeat that
                 pos = order.index(c) + 1
@@ -409,7 +422,7 @@ def run_shard(job):
             done = [i for i, c in enumerate(order) if c in fin]
             cut = (max(done) + 1) if done else 0
             if cut < len(order):
-                c, w, mode, x = remaining[cut]
+                c, w, mode, x, _shape = remaining[cut]
                 res["incon"].append("%s: probe stopped before case %s (sysmon rc=%s %s)"
                                     % (flavour, (ids[w], mode, x), rc, errtxt.strip()[-160:]))
                 cut += 1
@@ -440,7 +453,7 @@ def scan_source():
     return found
 
 
-def build_cases(ck, ids, quick, only=None):
+def build_cases(ck, ids, quick, only=None, shapes=None):
     cases = []
     rng = vlib.rng(ck.seed, "c09")
     sample = os.environ.get("C09_ERRNO_SAMPLE")  # debugging aid: a seeded sample instead of the whole range
@@ -457,20 +470,30 @@ def build_cases(ck, ids, quick, only=None):
             errnos = range(1, 4096)
         if info["kind"] != "plain_pid":
             for e in errnos:
-                cases.append((w, 0, -e))
+                cases.append((w, 0, -e, 0))
         if info["kind"] in WIDE_KINDS:
             for v in WIDE:
-                cases.append((w, 0, v))
+                cases.append((w, 0, v, 0))
         if info["forced_success"]:
             vals = list(SUCC[info["kind"]])
             vals += [v for v in random_values(rng, info["kind"], 32 if quick else 2048) if v not in vals]
             for v in vals:
-                cases.append((w, 0, v))
+                cases.append((w, 0, v, 0))
         for var in info["real"]:
-            cases.append((w, 1, var))
+            cases.append((w, 1, var, 0))
+        # argument corner shapes: a few errnos and every success class of the result type, forced
+        for sh in (shapes or {}).get(name, ()):
+            if info["kind"] != "plain_pid":
+                for e in SHAPE_ERRNOS:
+                    cases.append((w, 0, -e, sh))
+            if info["kind"] in WIDE_KINDS:
+                cases.append((w, 0, -4096, sh))
+            if info["forced_success"]:
+                for v in SUCC[info["kind"]]:
+                    cases.append((w, 0, v, sh))
     if only is not None:
-        for name, mode, x in only:
-            cases.append((ids.index(name), int(mode), int(x)))
+        for t in only:
+            cases.append((ids.index(t[0]), int(t[1]), int(t[2]), int(t[3]) if len(t) > 3 else 0))
     return cases
 
 
@@ -518,8 +541,12 @@ def run(ck, replay=None):
     # identifiers come from the probe; names, numbers must agree with the table above
     lst = vlib.run_one([flavours[0][1], "list"], timeout=60)
     ids = []
+    shapes = {}
     for line in lst["out"].splitlines():
-        i, name, nr = line.split()
+        i, name, nr, sh = line.split()
+        shapes[name] = [int(t) for t in sh.split(",")] if sh != "-" else []
+        if any(t not in SHAPES or t == 0 for t in shapes[name]):
+            raise RuntimeError("wrap_probe announces an unknown argument shape: %r" % line)
         if name not in TABLE or TABLE[name]["nr"] != int(nr) or int(i) != len(ids):
             raise RuntimeError("wrap_probe table and checks/c09.py disagree on %r" % line)
         ids.append(name)
@@ -537,8 +564,8 @@ def run(ck, replay=None):
     if replay:
         det = json.load(open(replay)).get("detail", {})
         only = det.get("replay_cases") or []
-    cases = build_cases(ck, ids, quick, only)
-    numbered = [(c, w, mode, x) for c, (w, mode, x) in enumerate(cases)]
+    cases = build_cases(ck, ids, quick, only, shapes)
+    numbered = [(c, w, mode, x, sh) for c, (w, mode, x, sh) in enumerate(cases)]
     nshard = max(1, min(vlib.NCPU, len(numbered) // 50 or 1))
     wdir = "/tmp/c09-%d" % os.getpid()
     shutil.rmtree(wdir, ignore_errors=True)
@@ -572,17 +599,18 @@ def run(ck, replay=None):
             ck.note_inconclusive(t)
         viol += r["viol"]
         for name, v in r["per_wrapper"].items():
-            a = per_wrapper.setdefault(name, [0, 0, 0, 0])
-            for i in range(4):
+            a = per_wrapper.setdefault(name, [0, 0, 0, 0, 0])
+            for i in range(5):
                 a[i] += v[i]
         for k, n in r["reissue"].items():
             reissue[k] = max(reissue.get(k, 0), n)
         pairs |= r["pairs"]
     # samples: violating cases, then forced errors / forced successes / real calls in turn, distinct wrappers
     seen = set()
-    pools = {cls: [s for r in results for s in r["samples"].get(cls, [])] for cls in ("viol", "ferr", "fok", "real")}
+    pools = {cls: [s for r in results for s in r["samples"].get(cls, [])]
+             for cls in ("viol", "ferr", "fok", "shape", "real")}
     for rnd in range(6):
-        for cls in ("viol", "ferr", "fok", "real"):
+        for cls in ("viol", "ferr", "fok", "shape", "real"):
             for s in pools[cls]:
                 k = (s["wrapper"], cls)
                 if k not in seen:
@@ -598,12 +626,14 @@ def run(ck, replay=None):
     ck.count("wrapper_value_pairs", len(pairs))
     ck.extra["wrappers"] = covered
     ck.extra["per_wrapper_cases"] = {n: dict(forced_errors=v[0], forced_successes=v[1], real_successes=v[2],
-                                             real_errors=v[3]) for n, v in sorted(per_wrapper.items())}
+                                             real_errors=v[3], corner_shape_cases=v[4]) for n, v in sorted(per_wrapper.items())}
     ck.extra["reissue_max_issues"] = reissue
+    ck.extra["argument_shapes"] = {n: [SHAPES[t] for t in v] for n, v in sorted(shapes.items()) if v}
+    ck.count("wrapper_argument_shapes", sum(1 + len(v) for v in shapes.values()))
     ck.extra["builds"] = [f for f, _ in flavours]
     ck.extra["shard_wall_s_max"] = round(max([r["wall"] for r in results] or [0]), 1)
     no_real_ok = sorted(n for n, i in TABLE.items() if not i["forced_success"] and i["kind"] != "errs"
-                        and per_wrapper.get(n, [0, 0, 0, 0])[2] == 0)
+                        and per_wrapper.get(n, [0, 0, 0, 0, 0])[2] == 0)
     if no_real_ok and not replay:
         ck.extra["no_success_observed"] = no_real_ok
     want_err = sum(4095 for n in TABLE if TABLE[n]["kind"] != "plain_pid")
@@ -617,6 +647,9 @@ def run(ck, replay=None):
     ck.assume("value-compared success values are limited to what the kernel can return for the call's result type; "
               "wrappers whose result is written by the kernel into caller memory get forced errors, real successes and "
               "(descriptor-typed ones) wide-register results judged on Ok-vs-Err only")
+    ck.assume("argument corner shapes (equal / 0 / i32::MAX descriptors, empty paths and buffers, zero and extreme "
+              "scalars) are only run with forced results, so the kernel never acts on them; a wrapper that answers "
+              "without a system call of the expected number is a violation (no-syscall-issued)")
     ck.assume("x86_64 system call numbers; dup2/dup3 may repeat the call after EBUSY, nothing else may repeat")
     ck.assume("excluded: exit, rt_sigreturn (never return), setup_io_uring (compound, C12/C18), "
               "clock_get_real_time/clock_get_monotonic_time (no Result)")
@@ -624,8 +657,10 @@ def run(ck, replay=None):
             "(0, small values incl. 16, 4095/4096, type maximum, 2^31..2^63 and -4096/-4097 for register-wide types) plus "
             "seeded random values of the type's kernel domain, for descriptor/flag-typed wrappers also register values that "
             "do not fit i32 (-4096, -4097, 2^31, 2^32-4095, 2^32-1, 2^32, 2^47; judged on Ok-vs-Err only), "
+            "the same forced decode (7 errnos + every success class) for each argument corner shape the signature allows "
+            "(equal descriptors, descriptor 0 / i32::MAX, empty path, equal paths, empty buffers, zero / extreme scalars), "
             "and real calls on harmless arguments (descriptor 16 provoked for descriptor-returning calls, dup targets "
             "3/15/16/17); each case judged on the logged return values of the expected system call between its markers "
-            "(count of issues, Err/Ok, code, value); distinct = (wrapper, errno class | success value class | real outcome); the exhaustive flag refers to the "
+            "(count of issues, Err/Ok, code, value); distinct = (wrapper, errno class | success value class | real outcome | shape x err/ok); the exhaustive flag refers to the "
             "(wrapper, errno) fault space, success values are classes plus seeded samples"
             % (len(set(SOURCE_NAME.get(n, n) for n in TABLE)), len(TABLE), "every errno 1..=4095 (debug build)" if quick else "every errno 1..=4095 (debug and release build)"))
